@@ -701,6 +701,12 @@ func init() {
 				c.Do(subC16Sched, &c16Sched{Src: src, API: "parsefile", Bound: bound})
 				c.Do(subC16Sched, &c16Sched{Src: src, API: "parsefile", Bound: bound, Cut: 9})
 			}
+			// run-time errors raised inside blocks that hold several fields which differ in letter case only, or several children:
+			// whatever the error text says about the block's other entries must not depend on map iteration order
+			for _, src := range []string{"def a { maxConns = 1; maxconns = 2; x = MaxConns }", "def a { ab = 1; aB = 2; Ab = 3; print AB }", "def a { x = 1; X = 2; y = x + nil }",
+				"def a { def b { }; def b \"n\" { }; def B { }; def b { } }", "def a { x = 1; X = 2; def c { print y } }", "def t { p = 1; P = 2 }\ndef T { }\nbind tt -> struct"} {
+				c.Do(subC16Sched, &c16Sched{Src: src, API: "interpret", Bound: bound})
+			}
 			// slice bindings of many blocks, two of them faulty in different ways: the error must not depend on schedule or on
 			// the number of CPUs the library is told (runtime.GOMAXPROCS / NumCPU are answers of the harness under E1)
 			for _, n := range []int{3, 130, 257, 1030} {
